@@ -22,7 +22,7 @@ RULE = (
     "through Cluster.deserialize(...).get_status_summary(include_jobs=True); non-trivial = >= 3 distinct snapshots "
     "including a cancellation (submitter-level or user) or an unblocking over >= 2 rounds; distinct by hash of the case"
 )
-RULE += " Later additions (DESIGN.md 9): " + 'one operator command bound to the end of a batch and held back between two lock holds; 3/7 of the submissions use multi-node batches (#SBATCH --nodes=2/3: run-jobs and try-submit-jobs on every node, results recorded by node 0).'
+RULE += " Later additions (DESIGN.md 9): " + 'one operator command bound to the end of a batch and held back between two lock holds; 3/7 of the submissions use multi-node batches (#SBATCH --nodes=2/3: run-jobs and try-submit-jobs on every node, results recorded by node 0); up to 2 `show-status -j` commands issued at generated steps and held back after a lock release: the printed counters must agree with the printed job table (the status is read as one snapshot).'
 ASSUMPTIONS = C.WORLD_ASSUMPTIONS + [
     "observation granularity is the property's own: after every cluster-lock release (file_yields off); "
     "Cluster.prepare_for_resubmission writes its two files without the lock by design and is treated as the epoch boundary",
@@ -44,6 +44,10 @@ def strategy(tier):
         "resubmit": st.one_of(st.none(), st.fixed_dictionaries({
             "failed": st.booleans(), "missing": st.booleans(), "successful": st.booleans()})),
         "late": C.late_ops(),
+        # the status as read by `show-status -j` while rounds go on: issued at a generated step, held back for a while
+        # right after its first / second release of the cluster lock
+        "reads": st.lists(st.fixed_dictionaries({"at": st.integers(15, 300), "release": st.integers(1, 2),
+                                                 "steps": st.integers(20, 200)}), max_size=2),
     })
 
 
@@ -181,8 +185,28 @@ def run_case(case):
     with H.Sim(scn, schedule=case["schedule"], snapshots=True) as sim:
         w = sim.w
         created = lambda ww: os.path.exists(os.path.join(sim.out, "submitter_groups.json"))  # noqa: E731
+        shows = []
+
+        def issue(kk):
+            if kk == "show":
+                # the status as a user reads it: `show-status -j` prints the counters and the job table
+                shows.append(sim.user_cmd(_cmd(sim, kk) + ["-j"], capture=True))
+            else:
+                sim.user_cmd(_cmd(sim, kk))
+
         for k in case["user"]:
-            w.user_events.append((k, created, (lambda kk: lambda ww: sim.user_cmd(_cmd(sim, kk)))(k)))
+            w.user_events.append((k, created, (lambda kk: lambda ww: issue(kk))(k)))
+        for op in case.get("reads", []):
+            # `show-status -j` issued at a generated step and held back right after its n-th release of the cluster lock
+            def rpred(ww, at=op["at"]):
+                return ww.steps >= at and created(ww) and not sim.is_complete()
+
+            def rfire(ww, op=op):
+                vt = sim.user_cmd(["show-status", "-o", sim.out, "-n", "-j"], capture=True, host="userhost5")
+                vt.own_pauses = [{"release": op["release"], "steps": op["steps"]}]
+                shows.append(vt)
+
+            w.cond_events.append(("show-j", rpred, rfire))
         C.install_late_ops(sim, case.get("late"))
         sim.submit()
         outcome = sim.drive()
@@ -231,6 +255,25 @@ def run_case(case):
                 wj = {j["name"]: (j["state"], sorted(j["blocked_by"])) for j in js["jobs"]}
                 if gj != wj:
                     v.append(C.viol("C09:summary-jobs-differ-from-files", f"{gj} vs {wj}"))
+        # what `show-status -j` printed is one consistent status: the counters agree with the job table
+        for vt in shows:
+            text = "".join(getattr(vt, "captured", {}).get("out") or [])
+            if "Job Status:" not in text:
+                continue
+            import re as _re
+
+            cm = _re.search(r"^\s*completed_jobs: (\d+)\s*$", text, _re.M)
+            nm = _re.search(r"^\s*not_submitted_jobs: (\d+)\s*$", text, _re.M)
+            rows = [ln for ln in text.split("Job Status:", 1)[1].splitlines() if ln.startswith("|")][1:]
+            states = [c.strip() for ln in rows for c in ln.strip("|").split("|") if c.strip() in ("done", "submitted", "not_submitted")]
+            if cm and rows and len(states) == len(rows):
+                res["classes"].append("show_status_table_read")
+                if int(cm.group(1)) != states.count("done"):
+                    v.append(C.viol("C09:show-status-counters-vs-table", f"show-status ({vt.name}) printed completed_jobs={cm.group(1)} "
+                                    f"with {states.count('done')} jobs shown as done ({states})"))
+                elif nm and int(nm.group(1)) != states.count("not_submitted"):
+                    v.append(C.viol("C09:show-status-counters-vs-table", f"show-status ({vt.name}) printed not_submitted_jobs="
+                                    f"{nm.group(1)} with {states.count('not_submitted')} jobs shown as not_submitted ({states})"))
         has_cancel_rows = any(parts[2] == "canceled" for f, parts in W.read_result_rows(sim.out))
         res["counters"]["snapshots"] = n
         if saw_cancel:
